@@ -666,7 +666,9 @@ func (env *Env) c14Lengths() {
 			g := hasGate(a, func(t *flow.Term) bool {
 				el := pat.Len(pat.Op(flow.OpIndex, "", value, iterFrom(pat.Const("0"), nil)))
 				return pat.Op("implies", "", pat.Bin("!=", el, pat.Const("0")), pat.Bin("==", el, length))(t, pat.Bind{}) ||
-					pat.Bin("==", el, length)(t, pat.Bind{})
+					pat.Bin("==", el, length)(t, pat.Bind{}) ||
+					// the same as a predicate: empty, or (non-empty and) of the exact length
+					pat.Bin("||", pat.Bin("==", el, pat.Const("0")), pat.OneOf(pat.Bin("==", el, length), pat.Bin("&&", pat.Bin("!=", el, pat.Const("0")), pat.Bin("==", el, length))))(t, pat.Bind{})
 			}, true)
 			okEntry := g != nil && g.Complete
 			if !okEntry {
